@@ -49,25 +49,28 @@ def extract_playback(text):
 
 def harness_file_of(h, scratch):
     """Find the harness source file (inside <scratch>/harness) that defines `fn <name>(`."""
-    pat = re.compile(r"\bfn %s\s*\(" % re.escape(h.name))
-    for root, _, files in os.walk(os.path.join(scratch, "harness")):
-        for fn in files:
-            if fn.endswith(".rs"):
-                p = os.path.join(root, fn)
-                if pat.search(open(p).read()):
-                    return p
+    leaf = (h.qname or h.name).split("::")[-1]
+    for pat in (re.compile(r"\bfn %s\s*\(" % re.escape(leaf)), re.compile(r"\b%s\b" % re.escape(h.name))):
+        for root, _, files in os.walk(os.path.join(scratch, "harness")):
+            for fn in sorted(files):
+                if fn.endswith(".rs") and "/ext/" not in root:
+                    p = os.path.join(root, fn)
+                    if pat.search(open(p).read()):
+                        return p
     return None
 
 
 def native_playback(crate_dir, test_name, release, logfile, timeout=1200):
-    cmd = ["cargo", "kani", "playback", "-Z", "concrete-playback"]
-    if release:
-        cmd.append("--release")
-    cmd += ["--", test_name, "--exact", "--nocapture"] if False else ["--", test_name]
+    cmd = ["cargo", "kani", "playback", "-Z", "concrete-playback", "--", test_name]
     env = dict(os.environ)
     env["CARGO_NET_OFFLINE"] = "true"
     env["RUST_BACKTRACE"] = "0"
     env.pop("RUSTFLAGS", None)
+    if release:
+        # `cargo kani playback` has no --release: give the test profile release semantics instead
+        env["CARGO_PROFILE_TEST_OPT_LEVEL"] = "3"
+        env["CARGO_PROFILE_TEST_DEBUG_ASSERTIONS"] = "false"
+        env["CARGO_PROFILE_TEST_OVERFLOW_CHECKS"] = "false"
     with open(logfile, "w") as lf:
         lf.write("$ (cd %s && %s)\n" % (crate_dir, " ".join(cmd)))
         lf.flush()
